@@ -6,7 +6,7 @@ correspond: random define-by-run programs run with the REAL BruteForceSampler th
             splits, fail / prune / raise / KeyboardInterrupt patterns, stale RUNNING trials); the sampler's RNG is a
             recording stub; the compiled Lean model replays the recorded choices and must reproduce every trial,
             every candidate list and every weight vector handed to the RNG, the stop flag and the crash flag.
-            Same for the GridSampler (grid ids, RNG target sets, stop, KeyError).
+            Same for the GridSampler (grid ids, RNG calls, stop); any exception out of the sampler is an alarm.
 observe:    independent oracle on the implementation: the program's leaves are enumerated in Python and compared
             with what optimize() evaluated (each exactly once, then it stops by itself; total trials = leaves).
 """
@@ -554,11 +554,16 @@ def gen_grid_case(r: random.Random, tier: str, flavour: str) -> dict[str, Any]:
         for _ in range(r.choice([1, 1, 2, 3])):
             case["pre"].append(r.choice(["finished", "finished", "failed", "stale-grid"]))
     elif flavour == "queue":
-        # enqueued trials waiting when the run starts; with n >= 2 after_trial never sees "exactly one free cell"
+        # enqueued trials waiting when the run starts (also on a one-cell grid, where after_trial sees
+        # "exactly one free cell" while a trial without grid id finishes)
         for _ in range(r.choice([1, 1, 2])):
             case["pre"].append("waiting")
-        if n < 2:
-            case["pre"] = ["finished"]
+    elif flavour == "queue-mid":
+        # some cells already evaluated by an earlier call, then trials are enqueued, then the run resumes
+        for _ in range(r.randint(1, n - 1) if n >= 2 else 0):
+            case["pre"].append("grid-done")
+        for _ in range(r.choice([1, 1, 2])):
+            case["pre"].append("waiting")
     total = n + len(case["pre"]) + 2
     outcomes = {}
     for t in range(len(case["pre"]), total + 3):
@@ -603,6 +608,12 @@ def run_grid_real(case: dict[str, Any]) -> dict[str, Any]:
             study.enqueue_trial(dict(some))
         elif kind == "stale-grid":
             study.ask()  # before_trial assigns a grid id; the worker dies before it tells
+        elif kind == "grid-done":
+            def plain(trial: Any) -> float:
+                for nm in names:
+                    trial.suggest_categorical(nm, space[nm])
+                return 0.0
+            study.optimize(plain, n_trials=1)
     pre_calls = len(rec.calls)
     outcomes = case["outcomes"]
 
@@ -662,6 +673,8 @@ def grid_request(case: dict[str, Any], real: dict[str, Any]) -> dict[str, Any]:
             pre.append([None, "finished"])
         elif kind == "waiting":
             pre.append([None, "waiting"])
+        elif kind == "grid-done":
+            pre.append([real["trials"][j]["gid"], "finished"])
         else:
             pre.append([real["trials"][j]["gid"], "running"])
     raises = [int(t) for t, o in case["outcomes"].items() if o in ("raise", "interrupt")]
@@ -674,11 +687,8 @@ def compare_grid(case: dict[str, Any], real: dict[str, Any], model: dict[str, An
         return "driver: %s" % json.dumps(model)[:300]
     if real.get("runaway"):
         return "the implementation ran %d trials on a grid of %d cells and was stopped by the harness" % (len(real["trials"]), real["n"])
-    is_key = bool(real["crashed"]) and "KeyError" in real["crashed"]
-    if bool(real["crashed"]) != bool(model["crashed"]):
-        return "sampler error: implementation %r / model %r" % (real["crashed"], model["crashed"])
-    if real["crashed"] and not is_key:
-        return "implementation raised %s where the model has KeyError('grid_id')" % real["crashed"]
+    if real["crashed"]:
+        return "the implementation raised %s; the model of the grid sampler never raises" % real["crashed"]
     rt = [[t["gid"], t["state"]] for t in real["trials"]]
     if rt != model["trials"]:
         return "trials (grid id, state): implementation %s / model %s" % (rt, model["trials"])
@@ -773,7 +783,7 @@ def check_enum(chk: core.Check, n: int, only: list[dict[str, Any]] | None = None
 
 
 # ---------------------------------------------------------------------------------------------
-# witnesses of the two places where the full-strength statement is false today
+# witnesses: where the full-strength statement is false today (brute force), and the repaired grid case
 # ---------------------------------------------------------------------------------------------
 
 PXY = {"name": "i0", "dist": {"k": "int", "low": 0, "high": 1, "step": 1}, "kids": [
@@ -788,9 +798,10 @@ W_STALE = {"kind": "bruteforce", "flavour": "witness-stale-default", "prog": PXY
            "stale": [[["i0", PXY["dist"], 0]]], "rng_seed": 1, "ks": [BIG], "finish": True}
 W_GRIDQ = {"kind": "grid", "flavour": "witness-enqueued", "space": {"p0": [1]}, "pre": ["waiting"], "rng_seed": 1, "seed": 0,
            "outcomes": {}, "ks": [BIG], "finish": True}
+W_GRIDQ2 = {"kind": "grid", "flavour": "witness-enqueued", "space": {"p0": [1, 2]}, "pre": ["grid-done", "waiting"],
+            "rng_seed": 1, "seed": 0, "outcomes": {}, "ks": [BIG], "finish": True}
 
 SIG_MIDCUT = {"sampler": "bruteforce", "kind": "interrupt-before-last-suggest-closes-prefix"}
-SIG_GRIDQ = {"sampler": "grid", "kind": "after-trial-keyerror-without-grid-id"}
 
 
 def witnesses(chk: core.Check, drv: core.Driver) -> None:
@@ -818,17 +829,21 @@ def witnesses(chk: core.Check, drv: core.Driver) -> None:
         "evaluated": len(fin), "of": 4, "stop": real["stop"],
         "note": "documented behaviour of avoid_premature_stop=False (Lean: stale_running_default_mode_stops_early); "
                 "the strict mode is covered by bruteforce_exhaustive"}
-    # 3. grid: enqueued trial finishing while exactly one cell is free (Lean: grid_enqueued_keyerror)
-    real = run_grid_real(W_GRIDQ)
-    model = drv["grid"].ask(grid_request(W_GRIDQ, real))
-    diff = compare_grid(W_GRIDQ, real, model)
-    if diff is not None:
-        chk.broke("correspondence", {"witness": "grid-enqueued", "diff": diff})
-    if real["crashed"]:
-        chk.violation(SIG_GRIDQ, W_GRIDQ,
-                      "GridSampler.after_trial raises %s when a trial without grid_id (enqueued, fixed_params) finishes while "
-                      "exactly one grid cell is unvisited: optimize() dies instead of evaluating the grid" % real["crashed"])
-    chk.extra["witness_grid_enqueued"] = {"crashed": real["crashed"], "stop": real["stop"]}
+    # 3. grid: enqueued trial finishing while exactly one cell is free (Lean: grid_enqueued_then_grid).  Before the
+    #    repair f91818c after_trial raised KeyError('grid_id') here; if that ever comes back it is a violation.
+    for w in (W_GRIDQ, W_GRIDQ2):
+        real = run_grid_real(w)
+        model = drv["grid"].ask(grid_request(w, real))
+        diff = compare_grid(w, real, model)
+        orc = oracle_grid(w, real)
+        chk.count("grid:witness-enqueued")
+        chk.traces_validated += 1
+        if orc is not None:
+            chk.violation(sig_of(w, orc[0]), w, "grid sampler with an enqueued trial and exactly one free cell: %s" % orc[1])
+        elif diff is not None:
+            chk.broke("correspondence", {"case": w, "diff": diff})
+    chk.extra["witness_grid_enqueued"] = {"crashed": real["crashed"], "stop": real["stop"],
+                                          "trials": [[t["gid"], t["state"]] for t in real["trials"]]}
 
 
 # ---------------------------------------------------------------------------------------------
@@ -988,7 +1003,7 @@ def stream(chk: core.Check, n_bf: int, n_grid: int) -> list[dict[str, Any]]:
         cases.append(gen_bf_case(r, chk.tier, fl))
     for _ in range(n_grid):
         x = r.random()
-        fl = "plain" if x < 0.5 else "pre" if x < 0.8 else "queue"
+        fl = "plain" if x < 0.45 else "pre" if x < 0.7 else "queue" if x < 0.85 else "queue-mid"
         cases.append(gen_grid_case(r, chk.tier, fl))
     return cases
 
@@ -1002,7 +1017,7 @@ def search(chk: core.Check) -> None:
         r = random.Random(chk.seed * 7919 + 14)
         for i in range(1500):
             case = gen_bf_case(r, "quick", r.choice(["plain", "plain", "stale-strict"])) if i % 4 else gen_grid_case(
-                r, "quick", r.choice(["plain", "pre", "queue"]))
+                r, "quick", r.choice(["plain", "pre", "queue", "queue-mid"]))
             res = run_case(case, drv)
             if res["oracle"] is not None:
                 kind = res["oracle"][0]
@@ -1095,13 +1110,6 @@ def replay(chk: core.Check, path: str) -> int:
             if real["stop"] and len(fin) < len(leaves_of(case["prog"])):
                 print("REPRODUCED: stopped after %d of %d combinations: %s" % (
                     len(fin), len(leaves_of(case["prog"])), [(t["state"], t["steps"]) for t in real["trials"]]))
-                return 1
-            print("not reproduced")
-            return 0
-        if case.get("flavour") == "witness-enqueued":
-            real = run_grid_real(case)
-            if real["crashed"]:
-                print("REPRODUCED: optimize died with %s; trials %s" % (real["crashed"], [(t["tstate"], t["gid"]) for t in real["trials"]]))
                 return 1
             print("not reproduced")
             return 0
